@@ -389,9 +389,14 @@ func genFlowsCase(r *prng.R) []string {
 		if i > 0 && r.Chance(15) {
 			ms = nil
 		}
+		ex := ""
+		if r.Chance(6) {
+			// an expression filter (no method list): matched by URL + expression, registered like any other filter
+			ms, ex = nil, " expr=1"
+		}
 		pats = append(pats, p)
 		methods = append(methods, ms)
-		ops = append(ops, fmt.Sprintf("flow name=f%d url=%s methods=%s", i+1, proto.Enc(p), encMethods(ms)))
+		ops = append(ops, fmt.Sprintf("flow name=f%d url=%s methods=%s%s", i+1, proto.Enc(p), encMethods(ms), ex))
 	}
 	ops = append(ops, "build")
 	return append(ops, genReqs(r, pats, methods, r.Range(6, 14))...)
